@@ -608,7 +608,7 @@ func cpuStream(name string, plan cpuPlan) streamFn {
 	}
 }
 
-var allFamilies = []string{"alu", "dep", "dep-mem", "mem", "br", "br-mem", "shadow", "shadow-reg", "tail", "pair", "err", "evict", "jumps", "calls", "loops", "dispatch", "stream", "pingpong", "resume"}
+var allFamilies = []string{"alu", "dep", "dep-mem", "mem", "br", "br-mem", "shadow", "shadow-reg", "tail", "pair", "err", "evict", "jumps", "calls", "loops", "dispatch", "stream", "pingpong", "resume", "shadow-ret"}
 
 func init() {
 	streams["cpuworker"] = func(dir string, seed int64, tier string) {}
@@ -617,11 +617,11 @@ func init() {
 	cached := append([]string{"mvp3"}, pipelined...)
 	all4 := []int{1, 2, 3, 4}
 	streams["cpu-c01"] = cpuStream("cpu-c01", cpuPlan{families: allFamilies, n: 770, pars: all4, repeats: 1})
-	streams["cpu-c03"] = cpuStream("cpu-c03", cpuPlan{families: []string{"shadow", "shadow-reg", "br", "shadow-reg", "br-mem", "shadow", "jumps", "calls", "resume"}, n: 720, variants: pipelined, pars: all4, repeats: 1})
+	streams["cpu-c03"] = cpuStream("cpu-c03", cpuPlan{families: []string{"shadow", "shadow-reg", "br", "shadow-reg", "br-mem", "shadow", "jumps", "calls", "resume", "shadow-ret"}, n: 800, variants: pipelined, pars: all4, repeats: 1})
 	streams["cpu-c04"] = cpuStream("cpu-c04", cpuPlan{families: []string{"dep", "dep-mem", "alu", "dep", "jumps", "loops", "calls"}, n: 720, variants: pipelined, pars: all4, repeats: 1})
 	streams["cpu-c05"] = cpuStream("cpu-c05", cpuPlan{families: []string{"mem", "evict", "dep-mem", "pair", "tail", "evict", "stream"}, n: 600, variants: cached, pars: all4, repeats: 1})
 	streams["cpu-c07"] = cpuStream("cpu-c07", cpuPlan{families: append([]string{"err", "br", "err", "jumps"}, allFamilies...), n: 700, pars: all4, repeats: 1})
-	streams["cpu-c09"] = cpuStream("cpu-c09", cpuPlan{families: []string{"tail", "br-mem", "tail", "dep-mem", "stream"}, n: 720, variants: pipelined, pars: all4, repeats: 1})
+	streams["cpu-c09"] = cpuStream("cpu-c09", cpuPlan{families: []string{"tail", "br-mem", "tail", "dep-mem", "stream", "shadow-ret"}, n: 720, variants: pipelined, pars: all4, repeats: 1})
 	streams["cpu-c10"] = cpuStream("cpu-c10", cpuPlan{families: []string{"pair", "mem", "pair", "stream"}, n: 600, variants: pipelined, pars: all4, repeats: 1})
 	streams["cpu-c12"] = cpuStream("cpu-c12", cpuPlan{families: []string{"alu", "dep", "dep-mem", "mem", "br", "tail", "pair", "br-mem", "jumps", "pingpong", "evict", "stream"}, n: 880, pars: all4, repeats: 1, pairs: true})
 	streams["cpu-c08"] = cpuStream("cpu-c08", cpuPlan{families: []string{"dep", "loops", "calls", "dep-mem", "mem", "br", "loops", "pair", "alu", "shadow-reg", "calls", "jumps", "dispatch"}, n: 364, pars: []int{1, 2, 3}, repeats: 3})
